@@ -32,6 +32,7 @@ fn giftwrap(author_i: u8, target: u8, shape: u8, t: u64) -> GenEvent {
         tags,
         content_len: 5,
         idc: IdChoice::Hash,
+        many: 0,
     }
 }
 
@@ -62,6 +63,8 @@ impl Prop for C18 {
             rebuild: 0,
             extra: 1,
             pressure: 0,
+            mass_delete: 0,
+            big: 0,
         };
         let cfg = EvCfg {
             kind_weights: [4, 2, 2, 3, 2],
@@ -77,6 +80,9 @@ impl Prop for C18 {
     }
     fn label_floors(&self) -> Vec<(&'static str, f64)> {
         vec![("vanish-with-targets", 0.15), ("remove-present", 0.3)]
+    }
+    fn release_fraction(&self, tier: Tier) -> f64 {
+        tier.pick(0.3, 0.5)
     }
     fn max_shrink_iters(&self) -> u32 {
         400
